@@ -500,7 +500,7 @@ func (b *backend) pathEncryptWrite(ctx context.Context, req *logical.Request, d 
 		resp.AddWarning("Attempted creation of the key during the encrypt operation, but it was created beforehand")
 	}
 
-	if err := logical.EndTxStorage(ctx, req); err != nil {
+	if err := b.endPolicyTxStorage(ctx, req, name); err != nil {
 		return nil, err
 	}
 
